@@ -1,6 +1,7 @@
 package seq
 
 import (
+	"math"
 	"otterverif/internal/core"
 )
 
@@ -14,7 +15,7 @@ type Profile struct {
 	ForceSt  bool
 	NoExp    bool
 	Queued   bool // executor that only queues its tasks; no refresh policy
-	Boundary int // weight of deadline-exact clock moves
+	Boundary int  // weight of deadline-exact clock moves
 }
 
 func baseWeights() [numOps]int {
@@ -132,6 +133,14 @@ func GenConfig(r *core.Rng, p *Profile) Config {
 		}
 	}
 	c.WBase = c.Maximum
+	if c.SizeKind != SizeNone && r.Chance(1, 16) {
+		// maxima around 2^63 and 2^64: "bounded, but never full" (the weigher stays built around a small value)
+		huge := []uint64{1<<63 - 1, 1<<63 - 1, 1 << 62}
+		if c.SizeKind == SizeWeight {
+			huge = []uint64{1<<63 - 1, 1 << 63, 1<<63 + 7, math.MaxUint64, math.MaxUint64 - 1}
+		}
+		c.Maximum = huge[r.Intn(len(huge))]
+	}
 	c.WeightMode = r.Intn(3)
 	if !p.NoExp && (p.ForceExp || r.Chance(6, 10)) {
 		c.ExpKind = 1 + r.Intn(7)
@@ -175,6 +184,23 @@ func (g *Gen) newVal() int {
 	return g.val
 }
 
+// loadTime is how long a slow loader takes on the cache's clock.
+func (g *Gen) loadTime() int64 {
+	c := g.Cfg
+	opts := []int64{1, 1000, 1 << 30, 1<<30 + 1, 3 << 30}
+	if c.WithExp() && c.ExpBase > 0 {
+		opts = append(opts, int64(c.ExpBase)/2+1, int64(c.ExpBase), int64(c.ExpBase)+1)
+	}
+	if c.WithRef() && c.RefBase > 0 {
+		opts = append(opts, int64(c.RefBase), int64(c.RefBase)+1)
+	}
+	d := opts[g.R.Intn(len(opts))]
+	if d <= 0 {
+		d = 1
+	}
+	return d
+}
+
 func (g *Gen) key() int {
 	return g.R.Intn(g.Cfg.Keys)
 }
@@ -197,6 +223,9 @@ func (g *Gen) plan(bulk bool, req []int, avoid map[int]bool) Plan {
 	}
 	if r.Chance(1, 7) {
 		p.Nest = 1 + r.Intn(2)
+	}
+	if g.Cfg.WithTime() && r.Chance(1, 5) {
+		p.Adv = g.loadTime()
 	}
 	if bulk {
 		p.Shape = []int{0, 0, 0, 1, 1, 2, 2, 3, 4}[r.Intn(9)]
@@ -286,6 +315,9 @@ func (g *Gen) Next(m *Model) Op {
 		op.Dur = g.advance(m)
 	case OpSetMaximum:
 		opts := []uint64{0, 1, 2, 3, c.Maximum, c.Maximum + 1, c.Maximum * 2, 100}
+		if c.WBase < 1<<32 {
+			opts = []uint64{0, 1, 2, 3, c.WBase, c.WBase + 1, c.WBase * 2, 100, 1<<63 - 1, 1 << 63, 1<<63 + 3, math.MaxUint64}
+		}
 		op.Max = opts[r.Intn(len(opts))]
 	case OpIterate:
 		op.Which = r.Intn(5)
